@@ -231,5 +231,13 @@ def run(out, tier, seed):
         for fmt in ("xml", "pretty-xml", "trix", "json-ld"):
             if xmlok or fmt == "json-ld":
                 jobs.append({"cfg": {}, "events": [{"op": "wf", "fmt": fmt, "quads_in": q, "family": name.split(":")[0]}]})
+    # blank nodes whose identifiers were chosen by the user (or kept from a document): legal labels beyond ASCII, labels that differ in one
+    # accent, digits first, dots and hyphens inside; each is one node in the output and none is merged with another
+    def KB(v):
+        return {"k": "bnode", "v": v, "keep": True}
+    for li, labels in enumerate((["café", "cafè"], ["名前", "住所", "名"], ["1a", "a1", "a.b", "a-b"], ["x·y", "x_y", "xy"], ["Ａ", "A", "a"], ["b", "B", "ß"])):
+        tr = [[KB(a), shapes.P1, KB(b)] for a in labels for b in labels if a != b] + [[KB(a), shapes.P2, shapes.L(str(i))] for i, a in enumerate(labels)]
+        jobs.append({"cfg": {}, "events": [{"op": "ntout", "fmt": "nt", "quads_in": [t + [{"k": "default"}] for t in tr], "family": "bnode-ids"}]})
+        jobs.append({"cfg": {}, "events": [{"op": "ntout", "fmt": "nquads", "quads_in": [t + [KB(labels[0])] for t in tr] + [t + [shapes.I(shapes.EX + "g")] for t in tr[:2]], "family": "bnode-ids"}]})
     out.extra["jobs"] = len(jobs)
     out.conform(__name__, TRACE, jobs, nontrivial=nontrivial, chunk=150, par=16, heap="2g")
